@@ -30,7 +30,7 @@ let rec keys_of t acc = match t with
   | Obj kvs -> List.fold_left (fun a (k, c) -> keys_of c (if List.mem k a then a else k :: a)) acc kvs
 
 (* the tree described by a specification function (depth-bounded: inputs are far shallower) *)
-let rec tree_of_spec (f : path -> ans) (keys : key list) (prefix : path) (fuel : int) : json =
+let rec tree_of_spec (f : char list list -> ans) (keys : char list list) (prefix : char list list) (fuel : int) : json =
   match f prefix with
   | ANone -> None
   | ALeaf v -> Some (Leaf v)
